@@ -21,7 +21,10 @@ pub fn family(rng: &mut Rng) -> (ModelSpec, Vec<f64>, &'static str) {
                 let t = taus[i - 1] * rng.range(3.0, 6.0);
                 taus.push(t);
             }
-            let n = rng.int(24, 200);
+            // identifiable means in particular that the fastest decay is resolved by the grid:
+            // spacing <= tau_1/2 (at least four samples within two decay lengths)
+            let n_min = (8.0 * taus[k - 1] / taus[0]).ceil() as usize + 1;
+            let n = rng.int(n_min.max(24), n_min.max(200));
             let x = grid(rng, n, 0.0, 4.0 * taus[k - 1], false);
             (z1(x, k, rng.chance(0.5)), taus, "F1 well-separated decays")
         }
@@ -133,7 +136,7 @@ fn fit_case<T: Sc>(rng: &mut Rng, case: u64, out: &mut CaseOut) {
     }
     if problems.is_empty() {
         out.count("converged_instances");
-        if case < 3 {
+        if case < 16 {
             out.sample(json!({"family": fam, "alpha_true": alpha_true, "alpha_hat": alpha_hat, "S": s, "noiseless": noiseless, "N": n, "termination": fit.termination()}));
         }
         return;
